@@ -316,7 +316,8 @@ def run(chk: common.Check):
         rule=("obligations = theorems of coq/props/C05.v + the hypothesis that the start value of get_smallest_distance is infinite (read from the "
               "module). Tie: Locality.v evaluated in binary64 vs get_smallest_distance (far pairs included) and vs energy_volume / buried / num_volume "
               "of real groups. Search: alone vs combined, both orders, gaps 25.5 A .. 5000 A (spans > 1000 A), exact comparison of every group "
-              "record; pairs incl. own copy, ligand copies sharing chain id L, sweep-limit cluster. distinct = (pair, gap, order)"),
+              "record; pairs incl. own copy, ligand copies sharing chain id L, sweep-limit cluster. distinct = (pair, gap, order)"
+              " Added in rounds 4-6: common_charge_centre 1 with coupled systems in both parts, bare TER / no record / END record between the parts, a part on the origin next to truncated side chains."),
         assumptions=["C05_cluster_independent_of_other_cluster assumes that a converged cluster, swept again, stays converged with the same results and that "
                      "sweeps act cluster-wise; both are exercised by the search (sweep-limit cluster forces 10 sweeps on everything), not proved",
                      "which group pairs are visited at all (set_determinants, set_backbone_determinants loops) is covered by the search"],
